@@ -51,8 +51,8 @@ func longString(n int) string {
 }
 
 // SerialOfWidth returns a positive serial whose minimal content encoding has exactly w bytes
-// (1..20), seeded. hiBit requests the form with a leading zero octet (value's top bit set), which
-// yields w bytes including the 0x00.
+// (1..20; 21 only with hiBit: a 20-octet value whose top bit is set), seeded. hiBit requests the form
+// with a leading zero octet (value's top bit set), which yields w bytes including the 0x00.
 func SerialOfWidth(r *rand.Rand, w int, hiBit bool) *big.Int {
 	if w < 1 {
 		w = 1
@@ -92,7 +92,7 @@ func Entries(r *rand.Rand, o Opts) []crlgen.Entry {
 	for len(out) < o.N {
 		w := o.SerialWidth
 		if w == 0 {
-			w = 1 + r.Intn(20)
+			w = 1 + r.Intn(21) // 21 = the largest serial RFC 5280 allows: 20 octets with the top bit set
 		}
 		if o.N > 100 && w < 3 {
 			w = 3
@@ -100,7 +100,7 @@ func Entries(r *rand.Rand, o Opts) []crlgen.Entry {
 		if o.N > 50000 && w < 4 {
 			w = 4
 		}
-		s := SerialOfWidth(r, w, r.Intn(4) == 0)
+		s := SerialOfWidth(r, w, r.Intn(4) == 0 || w == 21)
 		k := s.String()
 		if seen[k] {
 			continue
